@@ -66,6 +66,10 @@ Muts(b) ==
   \* offset = 2^64 - k with (bytes before the responses section) < k <= (its length) and a length up to that length:
   \* offset + length wraps to a small number although the start lies far outside
   \cup UNION { UNION { { [kind |-> "idxwrap2", i |-> e, j |-> k, v |-> U64(ln)] : ln \in {k, RespLen(b)} } : k \in WrapKs(b) } : e \in 1..Len(b.exs) }
+  \* offset = 2^64 - k where the k bytes in FRONT of the responses section are a well-formed response item (hidden in an unknown
+  \* section): a reader that adds the offset to the section's start lets the sum wrap back into the file; length = k or k + (first
+  \* bytes of the responses section)
+  \cup { [kind |-> "wrapback", i |-> e, j |-> d, v |-> U64Zero] : e \in 1..Len(b.exs), d \in {0, 1} }
   \* two index entries naming the SAME offset with different lengths (d = length delta of the aliasing entry)
   \cup { [kind |-> "idxalias", i |-> e, j |-> e2, v |-> U64(d)] : e \in 1..Len(b.exs), e2 \in 1..Len(b.exs), d \in {0, 1, 2} }
   \cup { [kind |-> "swap", i |-> i, j |-> j, v |-> U64Zero] : i \in 1..n, j \in 1..n }
@@ -115,6 +119,12 @@ Apply(b, m) ==
     [] m.kind = "idxwrap2" ->
          LET ix == IndexSectionO(b, [e |-> m.i, off |-> U64Sub(<<255,255,255,255,255,255,255,255>>, U64(m.j - 1)), len |-> m.v])
          IN Build(b, [t EXCEPT ![1].len = U64(Len(ix))], 2 * n, n, [bd EXCEPT ![1] = ix])
+    [] m.kind = "wrapback" ->
+         LET hidden == RespItem(Ex(U2, <<CT>>, 7))
+             k == Len(hidden)
+             ix == IndexSectionO(b, [e |-> m.i, off |-> U64Sub(<<255,255,255,255,255,255,255,255>>, U64(k - 1)), len |-> U64(k + m.j)])
+             t2 == InsAt([t EXCEPT ![1].len = U64(Len(ix))], n, [name |-> Unknown(0).name, len |-> U64(k)])
+         IN Build(b, t2, 2 * n + 2, n + 1, InsAt([bd EXCEPT ![1] = ix], n, hidden))
     [] m.kind = "idxalias" ->
          LET l2 == Locs(b.exs)[m.j]
              d == SmallVal(m.v)
@@ -178,7 +188,7 @@ UnmutatedReads == mut.kind = "none" => X.res = "ok" /\ X.exs = ExpectedRead(Base
 UnknownSkipped == mut.kind = "unknown" => X.res = "ok" /\ X.exs = ExpectedRead(BaseBundle(base))
 \* declared lengths pointing outside the file, wrapping offsets, responses not last, duplicates: refused
 OutOfBoundsRefused ==
-  /\ mut.kind \in {"idxwrap", "idxwrap2", "dupname", "unknownlast", "manyaxes"} => (X.res = "err" \/ (mut.kind = "dupname" /\ mut.i = mut.j))
+  /\ mut.kind \in {"idxwrap", "idxwrap2", "wrapback", "dupname", "unknownlast", "manyaxes"} => (X.res = "err" \/ (mut.kind = "dupname" /\ mut.i = mut.j))
   /\ (mut.kind = "seclen" /\ ~IsSmall(mut.v)) => X.res = "err"
   /\ (mut.kind \in {"idxoff", "idxlen"} /\ ~IsSmall(mut.v)) => X.res = "err"
   /\ mut.kind = "cntlen" => X.res = "err"
